@@ -94,6 +94,8 @@ type SpecFile struct {
 	Opaque    map[string]string
 	SortAlias map[string]string
 	Assumed   []string // free-text list of assumptions stated in the file
+	Immutable     []string
+	ImmutablePkg  []string
 	Closed        []string
 	GhostFields   []GhostParam
 	GhostFieldPkg []string
@@ -104,7 +106,7 @@ type SpecFile struct {
 var clauseKw = map[string]bool{
 	"func": true, "requires": true, "ensures": true, "assigns": true, "modifies": true, "loop": true, "decreases": true,
 	"ghost": true, "after": true, "before": true, "uf": true, "lemma": true, "axiom": true, "trusted": true, "pure": true, "split-paths": true, "opaque": true,
-	"sort": true, "closedtype": true, "ghostvar": true, "ghostfield": true, "free": true, "extern": true, "assume-note": true, "end": true,
+	"sort": true, "closedtype": true, "immutable": true, "ghostvar": true, "ghostfield": true, "free": true, "extern": true, "assume-note": true, "end": true,
 }
 
 var labelRe = regexp.MustCompile(`^\[([A-Za-z0-9_.\-]+)\]\s*`)
@@ -380,6 +382,14 @@ func ParseSpecFile(path, pkgName, pkgPath string, sf *SpecFile) error {
 				return err
 			}
 			cur.After = append(cur.After, &AfterClause{Match: match, Before: kw == "before", Var: strings.TrimSpace(tail[:eqi]), Expr: e, Text: tail, Line: rc.line})
+		case "immutable":
+			// immutable Struct.field, ... : fields written only when the object is created (modelled as functions of the reference)
+			for _, d := range strings.Split(rest, ",") {
+				if d = strings.TrimSpace(d); d != "" {
+					sf.Immutable = append(sf.Immutable, d)
+					sf.ImmutablePkg = append(sf.ImmutablePkg, pkgPath)
+				}
+			}
 		case "closedtype":
 			// closedtype pkg.Type : every non-nil value of this func type is a closure of a literal in the loaded packages
 			sf.Closed = append(sf.Closed, strings.TrimSpace(rest))
